@@ -34,6 +34,10 @@ def run(ctx):
                                ([] if ctx.quick() else [dict(module_rel="pq/MSPQMC.tla", cfg_rel="pq/MSPQ_q3.cfg", workers=8, timeout=3000)]), par=3)
     progs = list(PROGRAMS) + [gen_program(ctx.rng) for _ in range(1 if ctx.quick() else 6)]
     jobs = make_jobs(ctx, "pq", MSPQ, progs, group_of=lambda v: "ms") + make_jobs(ctx, "pq", FCPQ, progs, group_of=lambda v: "fc")
+    # spin-lock based code: extra schedules whose decision points are the read-modify-write accesses (lock acquisitions) only
+    rmw = [("random", 100 if ctx.quick() else 4000, 0), ("pct", 40 if ctx.quick() else 2000, 0)]
+    jobs += make_jobs(ctx, "pq", MSPQ, progs, group_of=lambda v: "ms", strat=rmw, extra_of=lambda v: ["--points", "rmw"]) + \
+            make_jobs(ctx, "pq", FCPQ, progs, group_of=lambda v: "fc", strat=rmw, extra_of=lambda v: ["--points", "rmw"])
     vlib.run_jobs(ctx, jobs)
     vlib.validate_histories(ctx, jobs, "LinPQ", CONSTS_MS, group="ms")
     vlib.validate_histories(ctx, jobs, "LinPQ", CONSTS_FC, group="fc")
